@@ -362,7 +362,10 @@ def run_prog(prog):
                     doist.exit(deeds=own)
                 raise
             if m["then"] == "do":
-                doist.do(doers=handed)
+                if prog.get("mode", "do") == "ado":
+                    asyncio.run(doist.ado(doers=handed))
+                else:
+                    doist.do(doers=handed)
             elif own is not None:
                 doist.exit(deeds=own)
                 if own or doist.deeds:
